@@ -23,6 +23,8 @@ import (
 	"golang.org/x/sys/unix"
 
 	vsys "github.com/panjf2000/gnet/v2/pkg/verifsys"
+
+	"gnetverif/harness/util"
 )
 
 var hoMu sync.Mutex
@@ -39,6 +41,11 @@ func hoStart() {
 	vsys.LogGoid = true
 	vsys.Set(func(rec string) {
 		f := strings.Fields(rec)
+		if len(f) >= 3 && f[0] == "sys" && f[1] == "accept" && strings.Contains(rec, "err=EBADF") {
+			// C07: the acceptor called accept(2) on a descriptor number that is not an open listener any more
+			util.Fail("C07: accept(2) on a listener descriptor the framework has already closed (EBADF): " + rec)
+			return
+		}
 		if len(f) < 3 || f[0] != "enter" {
 			return
 		}
